@@ -29,6 +29,9 @@ import (
 )
 
 const (
+	// id offset of the SAN-exactness companion of a Create case (see execCreate)
+	sansCompanionOffset = 1000000
+
 	findComma    = "C09-K4-comma-identity-extra-sans"
 	findOidc     = "C09-K4-oidc-short-sub-panic"
 	findXfccAddr = "C09-K11-xfcc-non-ip-peer-panic"
@@ -258,15 +261,15 @@ type authSpec struct {
 }
 
 type createIn struct {
-	w                               *world
-	cfg                             *caCfg
+	w                                *world
+	cfg                              *caCfg
 	xdsAuth, hasPeer, tls, plaintext bool
-	nilAuthInfo, withMD, withMeta   bool
-	auth                            []authSpec
-	md                              []kv
-	clusterIDs                      []string
-	csr                             genCsr
-	validity                        int64
+	nilAuthInfo, withMD, withMeta    bool
+	auth                             []authSpec
+	md                               []kv
+	clusterIDs                       []string
+	csr                              genCsr
+	validity                         int64
 }
 
 func runCreate(c *vlib.Collector, r *vlib.Rand, id int, env *createEnv) {
@@ -518,7 +521,6 @@ func execCreate(c *vlib.Collector, id int, env *createEnv, in createIn) {
 	}
 	if hasComma {
 		tags = append(tags, "identity-with-comma")
-		c.FindingOf[id] = findComma
 	}
 	v := in.validity
 	if v <= 0 {
@@ -529,6 +531,17 @@ func execCreate(c *vlib.Collector, id int, env *createEnv, in createIn) {
 	c.Add(vlib.Case{ID: id, Term: term, Tags: tags, Trivial: len(in.auth) == 0,
 		Sample: map[string]any{"kind": "CreateCertificate", "identities": allIDs, "impersonated": imp, "validity_s": v,
 			"csr": in.csr.kind, "ca": cfg.name, "cluster_ids": in.clusterIDs, "observed": tag}})
+	if hasComma && tag == "obs=issued" {
+		// companion case: only "SAN entries = selected identities", the part of the oracle the main
+		// case leaves out when a selected identity contains a comma (known finding)
+		cid := id + sansCompanionOffset
+		if c.Wanted(cid) {
+			c.FindingOf[cid] = findComma
+			c.Add(vlib.Case{ID: cid, Term: "(CreateSans " + vlib.NI(cid) + strings.TrimPrefix(term, "(Create "+vlib.NI(id)),
+				Tags: []string{"sans-companion"}, Sample: map[string]any{"kind": "CreateCertificate (SAN exactness only)", "of_case": id,
+					"identities": allIDs, "impersonated": imp, "cluster_ids": in.clusterIDs, "ca": cfg.name}})
+		}
+	}
 }
 
 // ------------------------------------------------------------------ SAN builder / spiffe cases
@@ -611,7 +624,7 @@ func TestGen(t *testing.T) {
 	for i := 0; i < nCreate; i++ {
 		id++
 		sub := rc.Sub()
-		if c.Wanted(id) {
+		if c.Wanted(id) || c.Wanted(id+sansCompanionOffset) {
 			runCreate(c, sub, id, env)
 		}
 	}
